@@ -345,126 +345,57 @@ Definition closed (tm : term) : bool := match tm with Open => false | _ => true 
 Lemma select_closed t b tm : closed tm = true -> select_phase t (mkStream b tm) = None.
 Proof. destruct tm; [discriminate|..]; intros _; destruct t, b; reflexivity. Qed.
 
+(* what is left of the stream after a recv that ran into the end *)
+Definition after_cut (tm : term) (pending : list Z) : stream :=
+  match tm, pending with Rst, _ :: _ => mkStream [] Rst | _, _ => mkStream [] Fin end.
+
 (* the peer closed inside (or right before) a header *)
 Lemma raw_cut_header tbl cfg st b tm : connected st = true -> closed tm = true ->
   (length b < Z.to_nat HEADER_SIZE)%nat ->
-  read_raw tbl cfg st (mkStream b tm) =
-  match tm, b with
-  | Rst, [] => (ORaise EConnLost, st, mkStream [] Fin)
-  | Rst, _ => (ORaise EConnLost, disconnected st, mkStream [] Rst)
-  | _, _ => (ORaise EConnLost, disconnected st, mkStream [] Fin)
-  end.
+  read_raw tbl cfg st (mkStream b tm) = (ORaise EConnLost, disconnected st, after_cut tm b).
 Proof.
   intros C CL H. unfold read_raw. rewrite C, (select_closed _ _ _ CL), (recv_short _ _ _ H). cbn [negb].
   destruct tm; [discriminate| |]; destruct b; reflexivity.
 Qed.
 
-(* the peer closed after a complete header h announcing n > |pp| payload bytes, of which pp arrived *)
+(* the peer closed after a complete header h announcing n > |pp| payload bytes, of which pp arrived:
+   decodable or not, the loss is reported *)
 Lemma raw_cut_payload tbl cfg st h pp tm : connected st = true -> closed tm = true ->
   length h = Z.to_nat HEADER_SIZE -> (Z.of_nat (length pp) < hdr_nbytes h) ->
-  read_raw tbl cfg st (mkStream (h ++ pp) tm) =
-  if decodable tbl (sync_check cfg) h then
-    match tm, pp with
-    | Rst, [] => (ORaise EConnLost, st, mkStream [] Fin)
-    | Rst, _ => (ORaise EConnLost, disconnected st, mkStream [] Rst)
-    | _, _ => (ORaise EConnLost, disconnected st, mkStream [] Fin)
-    end
-  else
-    match tm, pp with
-    | Rst, [] => (ORaise EConnReset, st, mkStream [] Fin)
-    | Rst, _ => (classify tbl (sync_check cfg) (mkFrame h pp), st, mkStream [] Rst)
-    | _, _ => (classify tbl (sync_check cfg) (mkFrame h pp), st, mkStream [] Fin)
-    end.
+  read_raw tbl cfg st (mkStream (h ++ pp) tm) = (ORaise EConnLost, disconnected st, after_cut tm pp).
 Proof.
   intros C CL HL HN. unfold read_raw. rewrite C. cbn [negb].
   replace (select_phase (timeout cfg) (mkStream (h ++ pp) tm)) with (@None outcome)
     by (symmetry; apply select_closed; exact CL).
-  rewrite (recv_exact h pp tm _ (eq_sym HL)). unfold decodable, classify. cbn [fh fp].
+  rewrite (recv_exact h pp tm _ (eq_sym HL)).
   assert (SH : (length pp < Z.to_nat (hdr_nbytes h))%nat) by lia.
-  destruct (lookup (hdr_type h) tbl) as [[tsz th]|].
-  - unfold size_guard. destruct (negb (tsz =? hdr_nbytes h)) eqn:G1.
-    + unfold drain, drain_len_size. replace (hdr_nbytes h <? 0) with false by lia.
-      rewrite (recv_short _ _ _ SH). destruct tm; [discriminate| |]; destruct pp; reflexivity.
-    + unfold version_guard.
-      destruct (sync_check cfg && negb (hdr_version h =? 0) && negb (hdr_version h =? th)) eqn:G2.
-      * unfold drain, drain_len_version. replace (hdr_nbytes h <? 0) with false by lia.
-        rewrite (recv_short _ _ _ SH). destruct tm; [discriminate| |]; destruct pp; reflexivity.
-      * apply negb_false_iff, Z.eqb_eq in G1. subst tsz.
-        replace (hdr_nbytes h =? 0) with false by lia.
-        rewrite (recv_short _ _ _ SH). destruct tm; [discriminate| |]; destruct pp; reflexivity.
-  - unfold drain, drain_len_unknown. replace (hdr_nbytes h <? 0) with false by lia.
-    rewrite (recv_short _ _ _ SH). destruct tm; [discriminate| |]; destruct pp; reflexivity.
+  assert (D : forall k, drain (hdr_nbytes h) st (mkStream pp tm) k = (ORaise EConnLost, disconnected st, after_cut tm pp)).
+  { intros k. unfold drain. replace (hdr_nbytes h <? 0) with false by lia. rewrite (recv_short _ _ _ SH).
+    destruct tm; [discriminate| |]; destruct pp; reflexivity. }
+  destruct (lookup (hdr_type h) tbl) as [[tsz th]|]; [|apply D].
+  unfold size_guard, drain_len_size, drain_len_version, drain_len_unknown in *.
+  destruct (negb (tsz =? hdr_nbytes h)) eqn:G1; [apply D|].
+  destruct (version_guard _ _ _); [apply D|].
+  apply negb_false_iff, Z.eqb_eq in G1. subst tsz. replace (hdr_nbytes h =? 0) with false by lia.
+  rewrite (recv_short _ _ _ SH). destruct tm; [discriminate| |]; destruct pp; reflexivity.
 Qed.
 
-Lemma classify_not_decodable tbl sync h pp : decodable tbl sync h = false ->
-  forall h' p', classify tbl sync (mkFrame h pp) <> OMsg h' p'.
-Proof.
-  unfold decodable, classify. cbn [fh fp]. destruct (lookup _ tbl) as [[a b]|]; [|discriminate].
-  destruct (negb _); [discriminate|]. destruct (_ && _ && _); discriminate.
-Qed.
-
-(* after the stream has been emptied *)
-Lemma read_empty_fin tbl cfg st : connected st = true ->
-  read tbl cfg st (mkStream [] Fin) = (ORaise EConnLost, disconnected st, mkStream [] Fin).
-Proof.
-  intros C. apply read_nonmsg; [exact C| |intros; discriminate].
-  rewrite (raw_cut_header tbl cfg st [] Fin C eq_refl); [reflexivity|vm_compute; lia].
-Qed.
-Lemma read_empty_rst tbl cfg st : connected st = true ->
-  read tbl cfg st (mkStream [] Rst) = (ORaise EConnLost, st, mkStream [] Fin).
-Proof.
-  intros C. apply read_nonmsg; [exact C| |intros; discriminate].
-  rewrite (raw_cut_header tbl cfg st [] Rst C eq_refl); [reflexivity|vm_compute; lia].
-Qed.
 Lemma read_not_connected tbl cfg st s : connected st = false -> read tbl cfg st s = (ORaise ENotConnected, st, s).
 Proof. intros C. unfold read. rewrite C. reflexivity. Qed.
 
-(* a stream that ends (Fin or Rst) inside a frame: whatever the options and subscription state of the
-   next three calls are, one of them raises ConnectionLost leaving connected = False *)
+(* a stream that ends inside (or right before) a frame *)
 Definition cut_stream (b : list Z) : Prop :=
   (length b < Z.to_nat HEADER_SIZE)%nat \/
   exists h pp, b = h ++ pp /\ length h = Z.to_nat HEADER_SIZE /\ Z.of_nat (length pp) < hdr_nbytes h.
 
-Definition lost_at (os : list (outcome * bool)) (i : nat) : Prop := nth_error os i = Some (ORaise EConnLost, false).
-
-Lemma read_cut_cases tbl cfg st b tm : connected st = true -> closed tm = true -> cut_stream b ->
-  exists o st' s', read tbl cfg st (mkStream b tm) = (o, st', s') /\ (forall h p, o <> OMsg h p) /\
-    r_sub_all st' = r_sub_all st /\ r_subscribed st' = r_subscribed st /\
-    ((o = ORaise EConnLost /\ connected st' = false) \/
-     (connected st' = true /\ (s' = mkStream [] Fin \/ s' = mkStream [] Rst))).
+(* the call that reaches the point where the peer closed or reset raises ConnectionLost and leaves the
+   client disconnected - at every byte offset, for FIN and for RST, decodable frame or not *)
+Lemma raw_cut_lost tbl cfg st b tm : connected st = true -> closed tm = true -> cut_stream b ->
+  exists s', read_raw tbl cfg st (mkStream b tm) = (ORaise EConnLost, disconnected st, s').
 Proof.
-  intros C CL [H|(h & pp & -> & HL & HN)].
-  - pose proof (raw_cut_header tbl cfg st b tm C CL H) as R.
-    destruct tm; [discriminate| |]; destruct b; (do 3 eexists; split; [apply read_nonmsg; [exact C|exact R|intros; discriminate]|]);
-      (split; [intros; discriminate|]); (split; [reflexivity|]); (split; [reflexivity|]);
-      try (left; split; reflexivity); right; split; auto.
-  - pose proof (raw_cut_payload tbl cfg st h pp tm C CL HL HN) as R.
-    destruct (decodable tbl (sync_check cfg) h) eqn:D.
-    + destruct tm; [discriminate| |]; destruct pp; (do 3 eexists; split; [apply read_nonmsg; [exact C|exact R|intros; discriminate]|]);
-        (split; [intros; discriminate|]); (split; [reflexivity|]); (split; [reflexivity|]);
-        try (left; split; reflexivity); right; split; auto.
-    + pose proof (classify_not_decodable tbl (sync_check cfg) h pp D) as N.
-      destruct tm; [discriminate| |]; destruct pp;
-        (do 3 eexists; split; [apply read_nonmsg; [exact C|exact R|first [exact N|intros; discriminate]]|]);
-        (split; [first [exact N|intros; discriminate]|]); (split; [reflexivity|]); (split; [reflexivity|]);
-        right; split; auto.
-Qed.
-
-Theorem lost_eventually tbl c1 c2 c3 b tm : closed tm = true -> cut_stream b ->
-  let os := fst (read_many tbl [c1; c2; c3] true (mkStream b tm)) in
-  (lost_at os 0 \/ lost_at os 1 \/ lost_at os 2) /\
-  match nth_error os 2 with Some (_, conn) => conn = false | None => False end.
-Proof.
-  intros CL CUT. cbn [read_many].
-  destruct (read_cut_cases tbl (c_cfg c1) (mkR true (c_sub_all c1) (c_subscribed c1)) b tm eq_refl CL CUT)
-    as (o1 & st1 & s1 & R1 & _ & _ & _ & D1). rewrite R1.
-  destruct D1 as [[-> C1]|[C1 S1]].
-  - rewrite C1. rewrite !read_not_connected by reflexivity. cbn. unfold lost_at. cbn. auto.
-  - rewrite C1. destruct S1 as [-> | ->].
-    + rewrite read_empty_fin by reflexivity. cbn [connected disconnected].
-      rewrite !read_not_connected by reflexivity. cbn. unfold lost_at. cbn. auto.
-    + rewrite read_empty_rst by reflexivity. cbn [connected]. rewrite read_empty_fin by reflexivity.
-      cbn. unfold lost_at. cbn. auto.
+  intros C CL [H|(h & pp & -> & HL & HN)]; eexists.
+  - apply raw_cut_header; assumption.
+  - apply raw_cut_payload; assumption.
 Qed.
 
 (* a cut frame never yields a message, whatever the peer did afterwards (including nothing yet) *)
@@ -518,33 +449,11 @@ Proof.
     rewrite CG, PG. destruct (classify_msg _ _ _ _ _ CG) as [-> ->]. reflexivity.
 Qed.
 
-Lemma lost_partial_header : forall tbl cfg st fs b tm,
-  connected st = true -> Forall wf_frame fs -> spec_read tbl cfg st fs = None ->
-  (length b < Z.to_nat HEADER_SIZE)%nat -> (tm = Fin \/ (tm = Rst /\ b <> [])) ->
+Lemma lost_full tbl cfg st fs b tm :
+  connected st = true -> closed tm = true -> Forall wf_frame fs -> spec_read tbl cfg st fs = None ->
+  cut_stream b ->
   exists s', read tbl cfg st (mkStream (encs fs ++ b) tm) = (ORaise EConnLost, disconnected st, s').
 Proof.
-  intros tbl cfg st fs b tm C WF S H T.
-  assert (CL : closed tm = true) by (destruct T as [->|[-> _]]; reflexivity).
-  pose proof (raw_cut_header tbl cfg st b tm C CL H) as R.
-  destruct T as [->|[-> NE]].
-  - eexists. eapply read_frames_none; [exact C|exact WF|exact S| |intros; discriminate].
-    rewrite R. destruct b; reflexivity.
-  - destruct b as [|x b]; [congruence|]. eexists.
-    eapply read_frames_none; [exact C|exact WF|exact S|exact R|intros; discriminate].
-Qed.
-
-Lemma lost_partial_payload : forall tbl cfg st fs h pp tm,
-  connected st = true -> Forall wf_frame fs -> spec_read tbl cfg st fs = None ->
-  length h = Z.to_nat HEADER_SIZE -> Z.of_nat (length pp) < hdr_nbytes h ->
-  decodable tbl (sync_check cfg) h = true -> (tm = Fin \/ (tm = Rst /\ pp <> [])) ->
-  exists s', read tbl cfg st (mkStream (encs fs ++ h ++ pp) tm) = (ORaise EConnLost, disconnected st, s').
-Proof.
-  intros tbl cfg st fs h pp tm C WF S HL HN D T.
-  assert (CL : closed tm = true) by (destruct T as [->|[-> _]]; reflexivity).
-  pose proof (raw_cut_payload tbl cfg st h pp tm C CL HL HN) as R. rewrite D in R.
-  destruct T as [->|[-> NE]].
-  - eexists. eapply read_frames_none; [exact C|exact WF|exact S| |intros; discriminate].
-    rewrite R. destruct pp; reflexivity.
-  - destruct pp as [|x pp]; [congruence|]. eexists.
-    eapply read_frames_none; [exact C|exact WF|exact S|exact R|intros; discriminate].
+  intros C CL WF S CUT. destruct (raw_cut_lost tbl cfg st b tm C CL CUT) as [s' R]. exists s'.
+  eapply read_frames_none; [exact C|exact WF|exact S|exact R|intros; discriminate].
 Qed.
